@@ -245,7 +245,8 @@ def run(ctx):
                 ctx.check(bool(dels and dels[0] < i) or bool(pops and pops[0] <= i), 'C04.5', 'close_connection:unregister-first', f_close.loc(e.node),
                           'the id is removed from the open table before the connection is closed (so it is closed once)',
                           'the connection is closed while its id stays registered')
-                ctx.check(norm(e.recv) in ('self.open_connections.get(connection_id)', 'self.open_connections.pop(connection_id, None)')
+                ctx.check(norm(e.recv) in ('self.open_connections.get(connection_id)', 'self.open_connections.pop(connection_id, None)', 'self.open_connections.pop(connection_id)',
+                                           'self.open_connections[connection_id]')
                           and e.argtext(0) == 'time', 'C04.5', 'close_connection:closes-that-one', f_close.loc(e.node),
                           'the connection closed is the one registered under the id', 'closes %s' % e.text[:80])
     ctx.floor('C04.5', nc, 1, 'close() call in close_connection')
